@@ -172,7 +172,7 @@ Proof.
   rewrite (take32_be32 au) by exact Hau. rewrite (take32_be32 ag) by exact Hag.
   rewrite (take32_be32 (len data)) by exact Hd.
   destruct (0 <? len data) eqn:D.
-  - pose proof (take_app data []) as T. rewrite app_nil_r in T.
+  - rewrite ?N.ltb_irrefl. pose proof (take_app data []) as T. rewrite app_nil_r in T.
     replace (N.to_nat (len data)) with (length data) by (unfold len; lia). rewrite T. reflexivity.
   - assert (data = []) as -> by (destruct data; [reflexivity|unfold len in D; cbn [length] in D; lia]).
     reflexivity.
@@ -251,6 +251,24 @@ Proof.
   rewrite T. destruct (m_ttl m =? 0); [exact Hd|]. destruct (cf_max_ttl cf <? m_ttl m); assumption.
 Qed.
 
+(* the IV enc_core uses: the first iv_size bytes of the random input *)
+Definition core_iv (m1 : msg) (ivr : bytes) : bytes :=
+  if m_cipher m1 =? c_cipher_none then [] else firstn (N.to_nat (cipher_iv_size (m_cipher m1))) ivr.
+
+Lemma core_iv_len m1 ivr :
+  (m_cipher m1 = c_cipher_none \/ cipher_valid (m_cipher m1) = true) -> m_cipher m1 < 256 -> 16 <= len ivr ->
+  len (core_iv m1 ivr) = (if m_cipher m1 =? c_cipher_none then 0 else cipher_iv_size (m_cipher m1)).
+Proof.
+  intros Hv Hc Hr. unfold core_iv. destruct (m_cipher m1 =? c_cipher_none) eqn:C; [reflexivity|].
+  bool_hyps. destruct Hv as [Hv|Hv]; [contradiction|].
+  destruct (cipher_tab_facts _ Hc Hv) as (_ & _ & _ & _ & H16).
+  unfold len in *. rewrite firstn_length. lia.
+Qed.
+
+Lemma pack_inner_len cf m salt : len (pack_inner cf m salt) =
+  len salt + 1 + len (cf_addr cf) + 28 + len (m_data m).
+Proof. unfold pack_inner, len. rewrite !app_length, !be32_length. cbn [length]. lia. Qed.
+
 Section Roundtrip.
 Variable hmac : N -> bytes -> bytes -> bytes.
 Variable sha1 : bytes -> bytes.
@@ -268,8 +286,6 @@ Hypothesis zip_inv : forall z x raw mx, zip_valid z = true -> zcomp z x = Some r
   zdecomp z raw mx = Some x.
 
 (* --- the pieces enc_core assembles, as functions of the final message m3 and compressed body --- *)
-Definition core_iv (m1 : msg) (ivr : bytes) : bytes :=
-  if m_cipher m1 =? c_cipher_none then [] else firstn (N.to_nat (cipher_iv_size (m_cipher m1))) ivr.
 Definition core_tag (cf : conf) (m3 : msg) (iv inner1 : bytes) : bytes :=
   hmac (m_mac m3) (mac_subkey sha1 (cf_key cf)) (pack_outer m3 iv ++ inner1).
 Definition core_wire (cf : conf) (m3 : msg) (iv inner1 : bytes) : bytes :=
@@ -303,17 +319,7 @@ Proof.
     + exists (m1 <| m_addr_len := c_addr_size |> <| m_zip := c_zip_none |>), (pack_inner cf m1 salt).
       repeat split; try reflexivity. left. split; reflexivity.
     + exists (m1 <| m_addr_len := c_addr_size |>), z.
-      repeat split; try reflexivity. right. repeat split; [exact Z|exact Cz].
-Qed.
-
-Lemma core_iv_len m1 ivr :
-  (m_cipher m1 = c_cipher_none \/ cipher_valid (m_cipher m1) = true) -> m_cipher m1 < 256 -> 16 <= len ivr ->
-  len (core_iv m1 ivr) = (if m_cipher m1 =? c_cipher_none then 0 else cipher_iv_size (m_cipher m1)).
-Proof.
-  intros Hv Hc Hr. unfold core_iv. destruct (m_cipher m1 =? c_cipher_none) eqn:C; [reflexivity|].
-  bool_hyps. destruct Hv as [Hv|Hv]; [contradiction|].
-  destruct (cipher_tab_facts _ Hc Hv) as (_ & _ & _ & _ & H16).
-  unfold len in *. rewrite firstn_length. lia.
+      repeat split; try reflexivity. right. split; [reflexivity|]. split; [exact Z|first [exact Cz|reflexivity]].
 Qed.
 
 (* (c)+(d): decryption and the MAC comparison *)
@@ -363,10 +369,6 @@ Proof.
     rewrite (zip_inv _ _ _ _ V R (N.le_refl _)). reflexivity.
 Qed.
 
-Lemma pack_inner_len cf m salt : len (pack_inner cf m salt) =
-  len salt + 1 + len (cf_addr cf) + 28 + len (m_data m).
-Proof. unfold pack_inner. rewrite !len_app. unfold len. cbn [length]. lia. Qed.
-
 (* encode, then every decode stage up to the inner unpack *)
 Lemma parse_ok cfe cfd m m1 pu pg now salt ivr o md0 :
   wf_conf cfe -> wf_enc_req m -> cf_key cfd = cf_key cfe ->
@@ -378,7 +380,7 @@ Lemma parse_ok cfe cfd m m1 pu pg now salt ivr o md0 :
     m_cipher mf = m_cipher (eo_msg o) /\ m_mac mf = m_mac (eo_msg o) /\ m_zip mf = m_zip (eo_msg o) /\
     m_addr_len mf = c_addr_size /\ m_addr mf = cf_addr cfe /\ m_time0 mf = u32 now /\ m_ttl mf = m_ttl m1 /\
     m_cred_uid mf = pu /\ m_cred_gid mf = pg /\ m_auth_uid mf = m_auth_uid m /\ m_auth_gid mf = m_auth_gid m /\
-    m_data_len mf = m_data_len m /\ m_data mf = m_data m.
+    m_data_len mf = m_data_len m /\ m_data mf = m_data m /\ 0 < len (eo_cred o).
 Proof.
   intros Hcf Hm Hkey Hpu Hpg Hsalt Hivr Hpre Hcore Hdata.
   destruct (enc_pre_facts _ _ _ _ _ _ Hcf Hm Hpre) as (O & P & Httl & U & G & T0).
@@ -429,10 +431,33 @@ Proof.
   2:{ rewrite U; exact Hpu. } 2:{ rewrite G; exact Hpg. }
   2:{ rewrite Pau; exact Wau. } 2:{ rewrite Pag; exact Wag. }
   2:{ rewrite Pd, <- Wdl. lia. }
-  eexists. split; [rewrite Etag; reflexivity|].
+  eexists. split; [rewrite Etag, Hotag; reflexivity|].
   cbn. rewrite Ec, Ema, Ez.
   repeat split; try assumption; try congruence.
 Qed.
+
+(* (g) the tail of dec_process_msg once parsing has succeeded *)
+Lemma dec_process_ok cf mem rs mreq du dg now' mf tag :
+  m_data_len mreq <> 0 -> m_retry mreq <= c_retry_attempts ->
+  dec_parse hmac sha1 blk_dec zdecomp cf
+    (mreq <| m_time0 := 0 |> <| m_time1 := u32 now' |> <| m_client_uid := du |> <| m_client_gid := dg |>)
+    = inr (mf, tag) ->
+  dec_authorized cf mem mf = true ->
+  fst (dec_time cf (m_time0 mf) (m_ttl mf) (m_time1 mf)) = TOk ->
+  let r := mf <| m_ttl := capped cf (m_ttl mf) |> in
+  r_mem (cred_rkey tag r) rs = false ->
+  dec_process hmac sha1 blk_dec zdecomp cf mem rs mreq du dg now' = (r, cred_rkey tag r :: rs, Some (cred_rkey tag r)).
+Proof.
+  intros Hd Hr P A T r M. unfold dec_process.
+  destruct (m_data_len mreq =? 0) eqn:D0; [apply N.eqb_eq in D0; contradiction|].
+  set (m1 := mreq <| m_time0 := 0 |> <| m_time1 := u32 now' |> <| m_client_uid := du |> <| m_client_gid := dg |>) in *.
+  assert (R : (c_retry_attempts <? m_retry m1) = false) by (apply N.ltb_ge; exact Hr).
+  rewrite R, P, A. cbn [negb].
+  pose proof (dec_time_ttl cf (m_time0 mf) (m_ttl mf) (m_time1 mf)) as S.
+  destruct (dec_time cf (m_time0 mf) (m_ttl mf) (m_time1 mf)) as [tv ttl2].
+  cbn [fst snd] in T, S. subst tv ttl2. fold r. rewrite M. reflexivity.
+Qed.
+
 
 (* The decode request libmunge sends for a credential string *)
 Definition dec_req (cred : bytes) (retry : N) : msg :=
@@ -472,6 +497,125 @@ Theorem roundtrip :
     m_ttl r = ttl' /\ m_time0 r = t0 /\ m_time1 r = u32 now' /\
     m_addr_len r = c_addr_size /\ m_addr r = cf_addr cfe.
 Proof.
-Abort.
+  intros cfe cfd m m1 pu pg now salt ivr o Hcf Hm Hkey Hpu Hpg Hsalt Hivr Hpre Hcore
+         mem rs du dg now' retry Hretry Hdu Hdg md ttl' t0 Hau Hag Hw1 Hw2 Hrep.
+  set (mreq := dec_req (eo_cred o) retry).
+  set (md1 := mreq <| m_time0 := 0 |> <| m_time1 := u32 now' |> <| m_client_uid := du |> <| m_client_gid := dg |>).
+  destruct (parse_ok cfe cfd m m1 pu pg now salt ivr o md1 Hcf Hm Hkey Hpu Hpg Hsalt Hivr Hpre Hcore eq_refl)
+    as (mf & Hparse & Fc & Fm & Fz & Fal & Fa & Ft0 & Fttl & Fcu & Fcg & Fau & Fag & Fdl & Fd & Hlen).
+  destruct (dec_parse_frame hmac sha1 blk_dec zdecomp cfd md1 mf _ Hparse) as (Ferr & Fre & Fu & Fg & Ft1).
+  change (m_err md1) with e_success in Ferr. change (m_client_uid md1) with du in Fu.
+  change (m_client_gid md1) with dg in Fg. change (m_time1 md1) with (u32 now') in Ft1.
+  assert (A : dec_authorized cfd mem mf = true).
+  { apply auth_decision. rewrite Fau, Fag, Fu, Fg. split; assumption. }
+  assert (T : fst (dec_time cfd (m_time0 mf) (m_ttl mf) (m_time1 mf)) = TOk).
+  { destruct (window_exact cfd (m_time0 mf) (m_ttl mf) (m_time1 mf)) as (W & _).
+    apply W. rewrite Ft0, Fttl, Ft1. fold ttl' t0. lia. }
+  pose proof (dec_process_ok cfd mem rs mreq du dg now' mf (eo_tag o)) as Hproc.
+  cbv zeta in Hproc. rewrite Fttl in Hproc. fold ttl' in Hproc.
+  assert (K : cred_rkey (eo_tag o) (mf <| m_ttl := ttl' |>) = (firstn 16 (eo_tag o), t0 + ttl')).
+  { unfold cred_rkey. cbn. rewrite Ft0. reflexivity. }
+  rewrite K in Hproc.
+  exists (mf <| m_ttl := ttl' |>), (firstn 16 (eo_tag o), t0 + ttl').
+  split.
+  { apply Hproc.
+    - change (m_data_len mreq) with (len (eo_cred o)). lia.
+    - exact Hretry.
+    - exact Hparse.
+    - exact A.
+    - rewrite <- Fttl. exact T.
+    - exact Hrep. }
+  split; [reflexivity|].
+  cbn. repeat split; assumption.
+Qed.
 
 End Roundtrip.
+
+(* ==================================================================== *)
+(* C02, injectivity half of the forgery reduction: the pair (outer header, MAC) together with the   *)
+(* authenticated plaintext determines every byte of the credential body.                            *)
+(* ==================================================================== *)
+Lemma unpack_outer_shape m b o : dec_unpack_outer m b = inr o ->
+  exists ver ci ma zi rl realm,
+    b = oo_outer o ++ oo_tag o ++ oo_inner o /\
+    oo_outer o = ver :: ci :: ma :: zi :: rl :: realm ++ oo_iv o /\
+    length realm = N.to_nat (b2n rl) /\
+    m_cipher (oo_msg o) = b2n ci /\ m_mac (oo_msg o) = b2n ma /\
+    (b2n ci = c_cipher_none \/ cipher_valid (b2n ci) = true) /\
+    len (oo_iv o) = (if b2n ci =? c_cipher_none then 0 else cipher_iv_size (b2n ci)).
+Proof.
+  unfold dec_unpack_outer. intros H. break_match H.
+  all: injection H as <-; cbn [oo_outer oo_iv oo_tag oo_inner oo_msg].
+  all: repeat match goal with
+       | T : take _ _ = Some _ |- _ => apply take_spec in T; destruct T as [? ?]
+       end; subst.
+  all: match goal with |- context [firstn ?n (?v :: ?c :: ?a :: ?z :: ?l :: ?rm ++ ?iv ++ ?r)] =>
+           assert (E : firstn n (v :: c :: a :: z :: l :: rm ++ iv ++ r) = v :: c :: a :: z :: l :: rm ++ iv)
+             by (change n with (Nat.sub (length (v :: c :: a :: z :: l :: rm ++ iv ++ r)) (length r));
+                 replace (v :: c :: a :: z :: l :: rm ++ iv ++ r) with ((v :: c :: a :: z :: l :: rm ++ iv) ++ r)
+                   by (cbn [app]; rewrite <- ?app_assoc; reflexivity);
+                 rewrite (app_length _ r), Nat.add_sub; apply firstn_app_exact);
+           rewrite E; clear E;
+           exists v, c, a, z, l, rm
+         end.
+  all: split; [cbn [app]; rewrite <- ?app_assoc; reflexivity|].
+  all: split; [reflexivity|]. all: split; [assumption|].
+  all: split; [reflexivity|]. all: split; [reflexivity|].
+  all: split; [match goal with H : negb (?x =? c_cipher_none) && negb (cipher_valid ?x) = false |- _ =>
+                 destruct (x =? c_cipher_none) eqn:Cn; [left; apply N.eqb_eq; exact Cn|
+                 right; cbn [negb andb] in H; apply negb_false_iff; exact H] end|].
+  all: match goal with H : length ?l = N.to_nat ?n |- len ?l = ?n => unfold len; rewrite H; apply N2Nat.id end.
+Qed.
+
+Section Forgery.
+Variable hmac : N -> bytes -> bytes -> bytes.
+Variable sha1 : bytes -> bytes.
+Variable blk_enc blk_dec : N -> bytes -> bytes -> bytes.
+
+(* blk_dec is a permutation of the full blocks whose inverse is blk_enc *)
+Hypothesis blk_dec_len : forall c k b, cipher_valid c = true -> len b = cipher_blk_size c ->
+  len (blk_dec c k b) = cipher_blk_size c.
+Hypothesis blk_enc_dec : forall c k b, cipher_valid c = true -> len b = cipher_blk_size c ->
+  blk_enc c k (blk_dec c k b) = b.
+
+Lemma decrypt_mac_inv cf o p : dec_decrypt_mac hmac sha1 blk_dec cf o = inr p ->
+  (if m_cipher (oo_msg o) =? c_cipher_none then Some (oo_inner o)
+   else cbc_decrypt blk_dec (m_cipher (oo_msg o))
+          (hmac (m_mac (oo_msg o)) (dek_subkey sha1 (cf_key cf)) (oo_tag o)) (oo_iv o) (oo_inner o)) = Some p.
+Proof.
+  unfold dec_decrypt_mac. intros H.
+  match type of H with match ?x with _ => _ end = _ => destruct x as [q|]; [|discriminate] end.
+  match type of H with (if ?b then _ else _) = _ => destruct b; [|discriminate] end.
+  injection H as ->. reflexivity.
+Qed.
+
+(* Two credential bodies that parse, carry the same outer header and the same MAC, and whose MAC check
+   passes on the same plaintext are the same byte string.  (m1, m2: the request messages, arbitrary.)
+   The PKCS#5 check of the model is strict (every pad byte is compared), which is what makes the padded
+   plaintext, hence the ciphertext, unique. *)
+Theorem mac_pair_determines_body cf m1 m2 b1 b2 o1 o2 p :
+  dec_unpack_outer m1 b1 = inr o1 -> dec_unpack_outer m2 b2 = inr o2 ->
+  oo_outer o1 = oo_outer o2 -> oo_tag o1 = oo_tag o2 ->
+  dec_decrypt_mac hmac sha1 blk_dec cf o1 = inr p ->
+  dec_decrypt_mac hmac sha1 blk_dec cf o2 = inr p ->
+  b1 = b2.
+Proof.
+  intros U1 U2 Ho Ht D1 D2.
+  destruct (unpack_outer_shape _ _ _ U1) as (v1 & c1 & a1 & z1 & l1 & r1 & B1 & S1 & R1 & C1 & M1 & V1 & I1).
+  destruct (unpack_outer_shape _ _ _ U2) as (v2 & c2 & a2 & z2 & l2 & r2 & B2 & S2 & R2 & C2 & M2 & V2 & I2).
+  rewrite S1, S2 in Ho. injection Ho as -> -> -> -> -> Hri.
+  apply app_inj_len in Hri; [|lia]. destruct Hri as [-> Hiv].
+  apply decrypt_mac_inv in D1, D2. rewrite C1, M1 in D1. rewrite C2, M2 in D2.
+  rewrite <- Ht, <- Hiv in D2.
+  assert (Hin : oo_inner o1 = oo_inner o2).
+  { destruct (b2n c2 =? c_cipher_none) eqn:Cn.
+    - congruence.
+    - bool_hyps. destruct V1 as [V1|V1]; [contradiction|].
+      destruct (cipher_tab_facts _ (b2n_lt c2) V1) as (Hb0 & _ & Hivb & _ & _).
+      refine (cbc_decrypt_inj blk_enc blk_dec (b2n c2)
+               (fun k b => blk_dec_len _ k b V1) (fun k b => blk_enc_dec _ k b V1) _ _ _ _ p Hb0 _ D1 D2).
+      rewrite I1. destruct (b2n c2 =? c_cipher_none) eqn:Cn2; [bool_hyps; contradiction|exact Hivb]. }
+  rewrite B1, B2, S1, S2, Ht, Hin, Hiv. reflexivity.
+Qed.
+
+End Forgery.
